@@ -27,3 +27,155 @@ pub fn sample_if_room(rep: &mut Report, f: impl FnOnce() -> J) {
 pub fn jstr(s: &str) -> J {
     json!(crate::report::show_str(s))
 }
+
+use lexpr::Value;
+
+/// Children of a compound value (elements, plus a non-null tail).
+pub fn children(v: &Value) -> Vec<Value> {
+    match v {
+        Value::Cons(c) => {
+            let (xs, t) = c.to_ref_vec();
+            let mut out: Vec<Value> = xs.into_iter().cloned().collect();
+            if !t.is_null() {
+                out.push(t.clone());
+            }
+            out
+        }
+        Value::Vector(xs) => xs.to_vec(),
+        _ => vec![],
+    }
+}
+
+/// Descend to a smallest sub-value for which `fails` still holds.
+pub fn shrink(v: &Value, fails: &dyn Fn(&Value) -> bool) -> Value {
+    let mut cur = v.clone();
+    'outer: loop {
+        for ch in children(&cur) {
+            if fails(&ch) {
+                cur = ch;
+                continue 'outer;
+            }
+        }
+        return cur;
+    }
+}
+
+pub fn char_class(c: char) -> &'static str {
+    let n = c as u32;
+    match n {
+        0x20 => "space",
+        0..=0x1F => "c0-control",
+        0x7F => "del",
+        0x21..=0x7E => "ascii-printable",
+        0x80..=0x9F => "c1-control",
+        0xA0..=0xFF => "latin1",
+        0x100..=0xFFFF => "bmp",
+        _ => "astral",
+    }
+}
+
+/// Coarse but stable description of a leaf, used in violation signatures.
+pub fn leaf_class(v: &Value) -> String {
+    match v {
+        Value::Nil => "nil".into(),
+        Value::Null => "null".into(),
+        Value::Bool(_) => "bool".into(),
+        Value::Number(n) => {
+            if let Some(f) = n.as_f64().filter(|_| n.is_f64()) {
+                let s = format!("{:?}", f);
+                let e = s.contains('e');
+                let d = s.contains('.');
+                let mag = if f == 0.0 {
+                    "zero"
+                } else if f.abs() < f64::MIN_POSITIVE {
+                    "subnormal"
+                } else {
+                    "normal"
+                };
+                format!("float:{}{}:{}", if e { "exp" } else { "noexp" }, if d { "+frac" } else { "+nofrac" }, mag)
+            } else if n.is_u64() {
+                "int:nonneg".into()
+            } else {
+                "int:neg".into()
+            }
+        }
+        Value::Char(c) => format!("char:{}", char_class(*c)),
+        Value::String(s) => {
+            let mut worst = "ascii-printable";
+            for c in s.chars() {
+                let k = char_class(c);
+                if k != "ascii-printable" && k != "space" {
+                    worst = k;
+                    break;
+                }
+                if c == '"' || c == '\\' {
+                    worst = "quote-or-backslash";
+                }
+            }
+            format!("string:{}", if s.is_empty() { "empty" } else { worst })
+        }
+        Value::Symbol(s) | Value::Keyword(s) => {
+            let kind = if matches!(v, Value::Symbol(_)) { "symbol" } else { "keyword" };
+            let shape = name_shape(s);
+            format!("{}:{}", kind, shape)
+        }
+        Value::Bytes(b) => format!("bytes:{}", if b.is_empty() { "empty" } else { "nonempty" }),
+        Value::Cons(_) => "compound:cons".into(),
+        Value::Vector(_) => "compound:vector".into(),
+    }
+}
+
+pub fn name_shape(s: &str) -> String {
+    let cs: Vec<char> = s.chars().collect();
+    if cs.is_empty() {
+        return "empty".into();
+    }
+    if s == "+" || s == "-" || s == "..." {
+        return "peculiar-basic".into();
+    }
+    if (cs[0] == '+' || cs[0] == '-') && cs.len() > 1 {
+        if cs[1] == '.' {
+            return "sign-dot-prefix".into();
+        }
+        return "sign-prefix".into();
+    }
+    if cs[0] == '.' {
+        return "dot-prefix".into();
+    }
+    let first = if cs[0].is_ascii_alphabetic() {
+        "alpha"
+    } else if cs[0].is_ascii_digit() {
+        "digit"
+    } else if (cs[0] as u32) > 127 {
+        "unicode"
+    } else if cs[0] == ':' {
+        "colon"
+    } else {
+        "special"
+    };
+    let mut flags = String::new();
+    if cs.len() > 1 && *cs.last().unwrap() == ':' {
+        flags.push_str("+colon-end");
+    }
+    if cs[1..].iter().any(|c| (*c as u32) > 127) {
+        flags.push_str("+unicode-inside");
+    }
+    format!("{}-initial{}", first, flags)
+}
+
+/// Error text without the trailing " at line L column C".
+pub fn err_kind(e: &lexpr::parse::Error) -> String {
+    let s = e.to_string();
+    match s.find(" at line ") {
+        Some(i) => s[..i].to_string(),
+        None => s,
+    }
+}
+
+pub fn cat_name(e: &lexpr::parse::Error) -> &'static str {
+    match e.classify() {
+        lexpr::parse::error::Category::Io => "io",
+        lexpr::parse::error::Category::Syntax => "syntax",
+        lexpr::parse::error::Category::Eof => "eof",
+    }
+}
